@@ -178,7 +178,7 @@ type ValStats struct {
 // spec/sem (module "SemTrace" for C02-C04). An error means TLC could not judge
 // (machinery), never a violation.
 func Validate(c *core.Ctx, module string, obs []*Obs) (*ValStats, error) {
-	obs, err := mergeObs(c, obs, 8)
+	obs, err := mergeObs(c, obs, parOf(2, 1))
 	if err != nil {
 		return nil, err
 	}
@@ -186,7 +186,7 @@ func Validate(c *core.Ctx, module string, obs []*Obs) (*ValStats, error) {
 	var mu sync.Mutex
 	var wg sync.WaitGroup
 	var firstErr error
-	sem := make(chan struct{}, 8)
+	sem := make(chan struct{}, parOf(2, 1))
 	for _, o := range obs {
 		wg.Add(1)
 		go func(o *Obs) {
